@@ -127,7 +127,7 @@ pub fn generate(rng: &mut Rng, seed: u64, run: u64, max_len: usize) -> Trace {
         input: wl.bytes,
         ops,
         faults,
-        params: vec![("fg".into(), fg), ("bg".into(), bg), ("resilient_client".into(), resilient)],
+        params: vec![("fg".into(), fg), ("bg".into(), bg), ("resilient_client".into(), resilient), ("gathering_writer".into(), rng.chance(1, 2) as i64)],
         seed,
         run,
     }
@@ -340,6 +340,7 @@ fn call(surface: &str, w: &mut SimWriter, tgt: &mut Target<'_>, fg: Option<ansty
 
 pub fn execute(t: &Trace, stats: &mut Stats, record: bool) -> Outcome {
     let mut w = SimWriter::new(t.faults.clone(), record);
+    w.st().gather = t.param("gathering_writer") == Some(1);
     let h = w.clone();
     let mut tgt = match t.surface.as_str() {
         "vec" => Target::Vec(Vec::new()),
